@@ -226,7 +226,7 @@ theorem readSpec_shape (R : Nat → Int → Int × GoSem.Err) (C : Nat → Bool)
           · obtain ⟨rm, ad, h1, h2, h3⟩ := ih (cl ++ [r])
             simp only [↓reduceIte]
             exact ⟨r :: rm, r :: ad, by rw [List.cons_append, ← h1],
-              by rw [h2]; simp, h3.cons₂ _⟩
+              by rw [h2]; simp, h3.cons_cons _⟩
       · simp only [he, ↓reduceIte]
         exact ⟨[], [], by simp⟩
 
@@ -256,5 +256,347 @@ theorem multi_read_code_closes_each_at_most_once (fuel : Nat) (R_Read : Nat → 
     intro hi'
     rw [h1] at hnd
     exact (List.nodup_append.mp hnd).2.2 i hirm i hi' rfl
+
+/-! ### 1. the translated `Read` is the model's `Multi.read` -/
+
+theorem encErr_eq_bodyClosed (e : Option Streams.Err) :
+    (encErr e = (some "http.ErrBodyReadAfterClose" : GoSem.Err)) ↔ e = some .bodyClosed := by
+  cases e with
+  | none => simp [encErr]
+  | some e => cases e <;> simp [encErr] <;> decide
+
+theorem encErr_eq_eof' (e : Option Streams.Err) :
+    (encErr e = (some "io.EOF" : GoSem.Err)) ↔ e = some .eof := by
+  cases e with
+  | none => simp [encErr]
+  | some e => cases e <;> simp [encErr] <;> decide
+
+/-- Identifier `i` of the translated code stands for the scripted source `s` (not yet closed), as
+far as a call with a buffer of length `m` can tell. -/
+def Tied (R : Nat → Int → Int × GoSem.Err) (C : Nat → Bool) (m : Nat) (i : Nat) (s : Src) : Prop :=
+  R i (m : Int) = srcRead s (m : Int) ∧ C i = s.closable ∧ s.closes = 0
+
+/-- The identifiers (positionally, `ids[j]` ↔ `newDone[j]`) of the sources the model closed in this
+call: those among the sources moved to `done` whose `closes` went up (from 0). -/
+def closedIds (ids : List Nat) (newDone : List Src) : List Nat :=
+  ((ids.zip newDone).filter (fun x => decide (0 < x.2.closes))).map Prod.fst
+
+theorem closedIds_cons (i : Nat) (ids : List Nat) (x : Src) (D : List Src) :
+    closedIds (i :: ids) (x :: D) = (if 0 < x.closes then [i] else []) ++ closedIds ids D := by
+  unfold closedIds
+  by_cases h : 0 < x.closes <;> simp [h]
+
+/-- The model's one call `Multi.readLoop m rs dn`, in the shape of the translated function's
+result: `(n, err, identifiers of the readers left, closeLog')`. The sources moved to `done` by
+this call are `done.drop dn.length`; they are the first sources of `rs`, so their identifiers are
+the first of `ids`. -/
+def modelMultiRead (ids : List Nat) (rs dn : List Src) (m : Nat) (cl : List Nat) :
+    Int × GoSem.Err × List Nat × List Nat :=
+  let r := Multi.readLoop m rs dn
+  let newDone := r.1.done.drop dn.length
+  ((r.2.1.length : Int), encErr r.2.2, ids.drop newDone.length, cl ++ closedIds ids newDone)
+
+/-- `done` is only an accumulator of the model's loop. -/
+theorem readLoop_shift (m : Nat) : ∀ (rs dn : List Src),
+    Multi.readLoop m rs dn =
+      ({ readers := (Multi.readLoop m rs []).1.readers,
+         done := dn ++ (Multi.readLoop m rs []).1.done }, (Multi.readLoop m rs []).2) := by
+  intro rs
+  induction rs with
+  | nil => intro dn; simp [Multi.readLoop]
+  | cons r rs ih =>
+    intro dn
+    rw [Multi.readLoop_cons m r rs dn, Multi.readLoop_cons m r rs []]
+    by_cases he : (r.read m).2.2 = some .eof
+    · simp only [he, ↓reduceIte]
+      by_cases hd : (r.read m).2.1 ≠ []
+      · simp [hd]
+      · simp only [hd, ↓reduceIte]
+        rw [ih (dn ++ [(r.read m).1.closeIfCloser]), ih ([] ++ [(r.read m).1.closeIfCloser])]
+        simp
+    · simp only [he, ↓reduceIte]
+      by_cases hb : (r.read m).2.2 = some .bodyClosed
+      · simp only [hb, ↓reduceIte]
+        by_cases hd : (r.read m).2.1 ≠ []
+        · simp [hd]
+        · simp only [hd, ↓reduceIte]
+          rw [ih (dn ++ [(r.read m).1]), ih ([] ++ [(r.read m).1])]
+          simp
+      · simp only [hb, ↓reduceIte]; simp
+
+theorem modelMultiRead_shift (ids : List Nat) (rs dn : List Src) (m : Nat) (cl : List Nat) :
+    modelMultiRead ids rs dn m cl = modelMultiRead ids rs [] m cl := by
+  unfold modelMultiRead
+  rw [readLoop_shift m rs dn]
+  simp
+
+/-- Shape of the model's call: it moves a prefix of the readers to `done` (so the identifiers
+`ids.drop newDone.length` are those of `r.1.readers`, position by position), and all readers left
+but the first are untouched. -/
+theorem readLoop_shape (m : Nat) : ∀ (rs : List Src),
+    (Multi.readLoop m rs []).1.done.length + (Multi.readLoop m rs []).1.readers.length = rs.length ∧
+    (Multi.readLoop m rs []).1.readers.tail = (rs.drop (Multi.readLoop m rs []).1.done.length).tail := by
+  intro rs
+  induction rs with
+  | nil => simp [Multi.readLoop]
+  | cons r rs ih =>
+    rw [Multi.readLoop_cons m r rs []]
+    by_cases he : (r.read m).2.2 = some .eof
+    · simp only [he, ↓reduceIte]
+      by_cases hd : (r.read m).2.1 ≠ []
+      · simp [hd, Nat.add_comm]
+      · simp only [hd, ↓reduceIte]
+        rw [readLoop_shift]
+        simp only [List.nil_append, List.length_append, List.length_cons, List.length_nil]
+        refine ⟨by omega, ?_⟩
+        rw [ih.2, Nat.add_comm, List.drop_succ_cons]
+    · simp only [he, ↓reduceIte]
+      by_cases hb : (r.read m).2.2 = some .bodyClosed
+      · simp only [hb, ↓reduceIte]
+        by_cases hd : (r.read m).2.1 ≠ []
+        · simp [hd, Nat.add_comm]
+        · simp only [hd, ↓reduceIte]
+          rw [readLoop_shift]
+          simp only [List.nil_append, List.length_append, List.length_cons, List.length_nil]
+          refine ⟨by omega, ?_⟩
+          rw [ih.2, Nat.add_comm, List.drop_succ_cons]
+      · simp only [hb, ↓reduceIte]; simp
+
+/-- `ids` and `rs` have the same length and are tied position by position. -/
+def TiedAll (R : Nat → Int → Int × GoSem.Err) (C : Nat → Bool) (m : Nat) : List Nat → List Src → Prop
+  | [], [] => True
+  | i :: ids, s :: rs => Tied R C m i s ∧ TiedAll R C m ids rs
+  | _, _ => False
+
+theorem TiedAll.length {R : Nat → Int → Int × GoSem.Err} {C : Nat → Bool} {m : Nat} :
+    ∀ {ids : List Nat} {rs : List Src}, TiedAll R C m ids rs → ids.length = rs.length := by
+  intro ids
+  induction ids with
+  | nil => intro rs h; cases rs with
+    | nil => rfl
+    | cons _ _ => simp [TiedAll] at h
+  | cons i ids ih =>
+    intro rs h
+    cases rs with
+    | nil => simp [TiedAll] at h
+    | cons s rs => simp [ih h.2]
+
+theorem tiedAll_of_getElem {R : Nat → Int → Int × GoSem.Err} {C : Nat → Bool} {m : Nat} :
+    ∀ (ids : List Nat) (rs : List Src), ids.length = rs.length →
+    (∀ j (h₁ : j < ids.length) (h₂ : j < rs.length), Tied R C m ids[j] rs[j]) →
+    TiedAll R C m ids rs := by
+  intro ids
+  induction ids with
+  | nil => intro rs hl _; cases rs with
+    | nil => trivial
+    | cons _ _ => simp at hl
+  | cons a ids ih =>
+    intro rs hl h
+    cases rs with
+    | nil => simp at hl
+    | cons b rs =>
+      refine ⟨h 0 (by simp) (by simp), ih rs (by simpa using hl) ?_⟩
+      intro j h₁ h₂
+      exact h (j + 1) (by simp; omega) (by simp; omega)
+
+/-- `readSpec` over identifiers tied to scripted sources is the model's call. -/
+theorem readSpec_eq_model (R : Nat → Int → Int × GoSem.Err) (C : Nat → Bool) (m : Nat) :
+    ∀ (ids : List Nat) (rs : List Src), TiedAll R C m ids rs → ∀ cl,
+      readSpec R C (m : Int) ids cl = modelMultiRead ids rs [] m cl := by
+  intro ids
+  induction ids with
+  | nil =>
+    intro rs h cl
+    cases rs with
+    | nil => simp [readSpec, modelMultiRead, Multi.readLoop, encErr, closedIds]
+    | cons _ _ => simp [TiedAll] at h
+  | cons i ids ih =>
+    intro rs h cl
+    cases rs with
+    | nil => simp [TiedAll] at h
+    | cons s rs =>
+    obtain ⟨⟨hR, hC, h0⟩, htl⟩ := h
+    have ih := ih rs htl
+    have hlen : ids.length = rs.length := htl.length
+    have hnil : (ids = []) = (rs = []) := by
+      cases ids <;> cases rs <;> simp at hlen ⊢
+    have hcl := read_closes s m
+    have hcb := Src.read_closable s m
+    simp only [readSpec, hR, srcRead, Int.toNat_natCast, hC, hnil]
+    unfold modelMultiRead
+    rw [Multi.readLoop_cons m s rs []]
+    have ih' := ih
+    unfold modelMultiRead at ih'
+    simp only [List.length_nil, List.drop_zero] at ih' ⊢
+    rcases hx : s.read m with ⟨s', d, e⟩
+    simp only [hx] at hcl hcb ⊢
+    simp only [encErr_eq_bodyClosed, encErr_eq_eof']
+    have hdpos : ((d.length : Int) > 0) = (d ≠ []) := by
+      cases d <;> simp <;> omega
+    simp only [hdpos]
+    by_cases hb : e = some .bodyClosed
+    · subst hb
+      simp only [↓reduceIte, reduceCtorEq, Option.some.injEq]
+      by_cases hd : d ≠ []
+      · by_cases hrs : rs = [] <;> simp [hd, hrs, encErr, closedIds, hcl, h0]
+      · simp only [hd, ↓reduceIte]
+        rw [readLoop_shift, ih' cl]
+        simp [closedIds_cons, hcl, h0]
+    · by_cases he : e = some .eof
+      · subst he
+        simp only [↓reduceIte, reduceCtorEq, Option.some.injEq]
+        have hcc : 0 < s'.closeIfCloser.closes ↔ s.closable = true := by
+          unfold Src.closeIfCloser Src.close
+          rw [hcb]
+          cases s.closable <;> simp [hcl, h0]
+        by_cases hd : d ≠ []
+        · by_cases hrs : rs = [] <;> cases hsc : s.closable <;>
+            simp [hd, hrs, encErr, closedIds, hcc, hsc]
+        · simp only [hd, ↓reduceIte]
+          rw [readLoop_shift, ih']
+          cases hsc : s.closable <;> simp [closedIds_cons, hcc, hsc]
+      · simp only [hb, he, ↓reduceIte]
+        simp [closedIds]
+
+/-- **1 (general form). The translated `Read` is the model's `Multi.readLoop`**: any identifiers
+`ids` tied position by position to not-yet-closed scripted sources `rs` (as far as reads with a
+buffer of `len(p)` can tell), any `done` accumulator, any buffer `p` (no bound on `len(p)` is
+needed; `len(p) = 0` included), any starting `closeLog`, fuel ≥ `len(rs) + 1`. -/
+theorem multi_read_code_eq_model_gen (R_Read : Nat → Int → Int × GoSem.Err) (R_IsCloser : Nat → Bool)
+    (ids : List Nat) (rs dn : List Src) (p : List UInt8) (closeLog : List Nat) (fuel : Nat)
+    (htied : TiedAll R_Read R_IsCloser p.length ids rs) (hfuel : rs.length + 1 ≤ fuel) :
+    MultiReaderCloser_Read fuel R_Read R_IsCloser ids p closeLog =
+      .ok (modelMultiRead ids rs dn p.length closeLog) := by
+  rw [multi_read_code_eq_spec fuel R_Read R_IsCloser ids p closeLog (by rw [htied.length]; exact hfuel),
+    modelMultiRead_shift]
+  exact congrArg _ (readSpec_eq_model R_Read R_IsCloser p.length ids rs htied closeLog)
+
+/-- Out-of-table identifiers (never consulted) read like an exhausted, non-closer source. -/
+def dfltSrc : Src :=
+  { rest := [], script := [], withData := false, term := .eof, closable := false, closes := 0 }
+
+/-- `R_Read` / `R_IsCloser` given by a table of scripted sources; identifier `b + j` is `srcs[j]`. -/
+def tableRead (b : Nat) (srcs : List Src) : Nat → Int → Int × GoSem.Err :=
+  fun i k => srcRead (srcs.getD (i - b) dfltSrc) k
+def tableIsCloser (b : Nat) (srcs : List Src) : Nat → Bool :=
+  fun i => (srcs.getD (i - b) dfltSrc).closable
+
+theorem tiedAll_table (b : Nat) (srcs : List Src) (h0 : ∀ s ∈ srcs, s.closes = 0) (m : Nat) :
+    TiedAll (tableRead b srcs) (tableIsCloser b srcs) m (List.range' b srcs.length) srcs := by
+  apply tiedAll_of_getElem
+  · simp
+  · intro j h₁ h₂
+    have hj : b + j - b = j := by omega
+    simp only [Tied, tableRead, tableIsCloser, List.getElem_range', Nat.one_mul, hj,
+      List.getD_eq_getElem?_getD, List.getElem?_eq_getElem h₂, Option.getD_some, true_and]
+    exact h0 _ (List.getElem_mem h₂)
+
+/-- The same with the identifiers `b, b+1, …` and any `done` accumulator. -/
+theorem multi_read_code_eq_model_base (b : Nat) (srcs dn : List Src) (h0 : ∀ s ∈ srcs, s.closes = 0)
+    (p : List UInt8) (closeLog : List Nat) (fuel : Nat) (hfuel : srcs.length + 1 ≤ fuel) :
+    MultiReaderCloser_Read fuel (tableRead b srcs) (tableIsCloser b srcs)
+        (List.range' b srcs.length) p closeLog =
+      .ok (modelMultiRead (List.range' b srcs.length) srcs dn p.length closeLog) :=
+  multi_read_code_eq_model_gen _ _ _ srcs dn p closeLog fuel (tiedAll_table b srcs h0 p.length) hfuel
+
+/-- **1. The translated `MultiReaderCloser.Read` is the model's `Multi.read`.** Sources `srcs` (none
+closed yet) known to the translated code as `0, 1, …, len-1`; any buffer `p` — no bound on
+`len(p)` is needed, and for `len(p) = 0` both sides return `(0, nil)` without dropping a reader
+(`(0, io.EOF)` if `srcs = []`); any starting `closeLog`; fuel ≥ `len(srcs) + 1`. With
+`r := Multi.read (Multi.new srcs) len(p)` the translated function returns
+  * `n   = len(r data)`,
+  * `err = encErr (r error)`,
+  * `mr.readers = [k, …, len-1]` for `k = len(r.done)`: the identifiers of `r.readers`
+    (`multi_read_model_shape`: `k + len(r.readers) = len(srcs)`, and `r.readers` is `srcs.drop k`
+    with only its first source advanced),
+  * `closeLog ++` the identifiers `j < k` of the sources the model closed (`r.done[j].closes > 0`),
+    in order. -/
+theorem multi_read_code_eq_model (srcs : List Src) (h0 : ∀ s ∈ srcs, s.closes = 0)
+    (p : List UInt8) (closeLog : List Nat) (fuel : Nat) (hfuel : srcs.length + 1 ≤ fuel) :
+    MultiReaderCloser_Read fuel (tableRead 0 srcs) (tableIsCloser 0 srcs)
+        (List.range srcs.length) p closeLog =
+      .ok (((Multi.read (Multi.new srcs) p.length).2.1.length : Int),
+           encErr (Multi.read (Multi.new srcs) p.length).2.2,
+           (List.range srcs.length).drop (Multi.read (Multi.new srcs) p.length).1.done.length,
+           closeLog ++ closedIds (List.range srcs.length) (Multi.read (Multi.new srcs) p.length).1.done) := by
+  have h := multi_read_code_eq_model_base 0 srcs [] h0 p closeLog fuel hfuel
+  rw [← List.range_eq_range'] at h
+  rw [h]
+  simp [modelMultiRead, Multi.read, Multi.new]
+
+/-- What the identifiers in `multi_read_code_eq_model` denote on the model side. -/
+theorem multi_read_model_shape (srcs : List Src) (m : Nat) :
+    (Multi.read (Multi.new srcs) m).1.done.length + (Multi.read (Multi.new srcs) m).1.readers.length
+      = srcs.length ∧
+    (Multi.read (Multi.new srcs) m).1.readers.tail =
+      (srcs.drop (Multi.read (Multi.new srcs) m).1.done.length).tail :=
+  readLoop_shape m srcs
+
+/-! ### 4. non-vacuity: the translated function itself, evaluated -/
+
+/-- an exhausted closer: `Read` returns `(0, io.EOF)` -/
+def exEmpty : Src :=
+  { rest := [], script := [], withData := false, term := .eof, closable := true, closes := 0 }
+/-- three bytes, then `(0, io.EOF)` on a later call -/
+def exData : Src :=
+  { rest := [7, 8, 9], script := [], withData := false, term := .eof, closable := true, closes := 0 }
+/-- two bytes returned together with `io.EOF` -/
+def exDataEOF : Src :=
+  { rest := [1, 2], script := [], withData := true, term := .eof, closable := true, closes := 0 }
+/-- a body already closed elsewhere: `(0, http.ErrBodyReadAfterClose)` -/
+def exBody : Src :=
+  { rest := [], script := [], withData := false, term := .bodyClosed, closable := true, closes := 0 }
+
+/-- Two sources, the first ending with EOF and no data: it is closed and dropped, the same call goes
+on to the second and returns its bytes. -/
+example :
+    MultiReaderCloser_Read 3 (tableRead 0 [exEmpty, exData]) (tableIsCloser 0 [exEmpty, exData])
+      [0, 1] (List.replicate 4 0) [] = .ok (3, none, [1], [0]) := by decide +kernel
+
+/-- …and the model side of `multi_read_code_eq_model` on the same input is that very value. -/
+example :
+    modelMultiRead [0, 1] [exEmpty, exData] [] 4 [] = (3, none, [1], [0]) := by decide +kernel
+
+/-- A source returning data together with EOF as the last one: `(2, io.EOF)`, closed, dropped. -/
+example :
+    MultiReaderCloser_Read 2 (tableRead 0 [exDataEOF]) (tableIsCloser 0 [exDataEOF])
+      [0] (List.replicate 4 0) [5] = .ok (2, some "io.EOF", [], [5, 0]) := by decide +kernel
+
+/-- Data together with EOF from a source that is NOT the last: the EOF is swallowed. -/
+example :
+    MultiReaderCloser_Read 3 (tableRead 0 [exDataEOF, exData]) (tableIsCloser 0 [exDataEOF, exData])
+      [0, 1] (List.replicate 4 0) [] = .ok (2, none, [1], [0]) := by decide +kernel
+
+/-- `http.ErrBodyReadAfterClose` is treated as EOF but the body is not closed again; then the last
+source's data-with-EOF ends the stream. -/
+example :
+    MultiReaderCloser_Read 3 (tableRead 0 [exBody, exDataEOF]) (tableIsCloser 0 [exBody, exDataEOF])
+      [0, 1] (List.replicate 4 0) [] = .ok (2, some "io.EOF", [], [1]) := by decide +kernel
+
+/-- Every source exhausted: all closed (once), `(0, io.EOF)`; the fuel bound `len + 1` is tight. -/
+example :
+    MultiReaderCloser_Read 3 (tableRead 0 [exEmpty, exBody]) (tableIsCloser 0 [exEmpty, exBody])
+      [0, 1] (List.replicate 4 0) [] = .ok (0, some "io.EOF", [], [0]) ∧
+    MultiReaderCloser_Read 2 (tableRead 0 [exEmpty, exBody]) (tableIsCloser 0 [exEmpty, exBody])
+      [0, 1] (List.replicate 4 0) [] = .nofuel := by decide +kernel
+
+/-- `len(p) = 0`: `(0, nil)`, nothing dropped, nothing closed. -/
+example :
+    MultiReaderCloser_Read 3 (tableRead 0 [exEmpty, exData]) (tableIsCloser 0 [exEmpty, exData])
+      [0, 1] [] [] = .ok (0, none, [0, 1], []) := by decide +kernel
+
+/-- The hypotheses of `multi_read_code_eq_model` are satisfiable, and `closes_each_at_most_once`
+applies to a concrete run. -/
+example : ∃ removed added, [0, 1] = removed ++ [1] ∧ [0] = [] ++ added ∧
+    added.Sublist removed ∧ added.Nodup ∧ ∀ i ∈ added, i ∈ [0, 1] ∧ i ∉ [1] :=
+  multi_read_code_closes_each_at_most_once 3 (tableRead 0 [exEmpty, exData])
+    (tableIsCloser 0 [exEmpty, exData]) [0, 1] (List.replicate 4 0) [] 3 none [1] [0]
+    (by decide) (by decide +kernel)
+
+example :
+    MultiReaderCloser_Read 3 (tableRead 0 [exEmpty, exData]) (tableIsCloser 0 [exEmpty, exData])
+      (List.range 2) (List.replicate 4 0) [] = .ok (3, none, [1], [0]) :=
+  (multi_read_code_eq_model [exEmpty, exData] (by decide) (List.replicate 4 0) [] 3 (by decide)).trans
+    (by decide +kernel)
 
 end Kit.Streams.Code
